@@ -140,6 +140,10 @@ def _rentian(r):
     n = r.randint(5, 8)
     A = (_und(r, n=n, wkind='bin') != 0).astype(float)
     xyz = np.array([[round(r.uniform(0, 10), 3) for _ in range(3)] for _ in range(n)])
+    if r.random() < 0.3:
+        # a tight cluster plus one distant node: almost every random cube is empty, the sampling loop runs long
+        xyz = np.array([[round(r.uniform(0, 1), 3) for _ in range(3)] for _ in range(n)])
+        xyz[r.randrange(n)] += r.choice((150.0, 300.0))
     return (A, xyz, r.randint(2, 5)), {}
 
 
